@@ -56,16 +56,29 @@ def build_structure(struct):
     return out
 
 
-def run_case(exe, wd, struct, cfg, tq_ms=4000, tag="c", timeout=90):
+def crash_summary(out):
+    """the informative lines of a dying run: assertion text, signal, first runtime frames."""
+    keep = []
+    for ln in out.split("\n"):
+        if "Assertion" in ln or "Signal:" in ln or "Failing at address" in ln or "parsec_fatal" in ln.lower() or "MPI_ERR" in ln:
+            keep.append(ln.strip())
+        elif "libparsec" in ln and "(" in ln and "+0x" in ln and len([k for k in keep if "libparsec" in k]) < 4:
+            keep.append(ln.split("libparsec.so.4", 1)[-1].split("[0x")[0].strip())
+    txt = " | ".join(keep) if keep else " | ".join(x for x in out[-500:].split("\n") if x.strip())
+    return txt[:600]
+
+
+def run_case(exe, wd, struct, cfg, tq_ms=4000, tag="c", timeout=300):
     """-> (status, message); status in ok / hang / crash / timeout."""
     cf, lf = os.path.join(wd, tag + ".case"), os.path.join(wd, tag + ".log")
     open(cf, "w").write(" ".join(map(str, G.case_ints(struct, cfg, tq_ms))) + "\n")
     P = cfg["P"]
     for r in range(4):
-        try:
-            os.unlink("%s.%d" % (lf, r))
-        except OSError:
-            pass
+        for f in ("%s.%d" % (lf, r), "%s.hb.%d" % (lf, r)):
+            try:
+                os.unlink(f)
+            except OSError:
+                pass
     env = dict(os.environ)
     env.update(core.MPI_ENV)
     env["PARSEC_MCA_mca_sched"] = cfg.get("sched", "lfq")
@@ -73,6 +86,8 @@ def run_case(exe, wd, struct, cfg, tq_ms=4000, tag="c", timeout=90):
     env["OMPI_MCA_btl"] = "self,vader"
     if cfg.get("short") is not None:
         env["PARSEC_MCA_runtime_comm_short_limit"] = str(cfg["short"])
+    if cfg.get("bcast") is not None:
+        env["PARSEC_MCA_runtime_comm_coll_bcast"] = str(cfg["bcast"])
     cmd = [exe, cf, lf]
     if P > 1:
         cmd = ["mpiexec", "--oversubscribe", "-n", str(P)] + cmd
@@ -87,12 +102,13 @@ def run_case(exe, wd, struct, cfg, tq_ms=4000, tag="c", timeout=90):
         status[r] = s
         recs += rs
         notes[r] = ns
-    if any(s == "QUIESCENT-INCOMPLETE" for s in status.values()):
+    q = [n for r in notes for n in notes[r] if n.startswith("C18-QUIESCENT")]
+    if q:
         done = sum(1 for r in recs if not r.again)
         total = cfg["nt"] * (2 + 2 * len(struct["cons"]))
-        return "hang", "runtime quiescent with %d of %d tasks executed (ranks %s)" % (done, total, ",".join("%s:%s" % kv for kv in sorted(status.items())))
+        return "hang", "runtime quiescent with %d of %d tasks executed: %s" % (done, total, q[0][:300])
     if p.returncode != 0 or any(s != "FINISHED" for s in status.values()):
-        return "crash", "run died rc=%s: %s" % (p.returncode, " | ".join(x for x in p.stdout[-700:].split("\n") if x.strip())[-600:])
+        return "crash", "run died rc=%s: %s" % (p.returncode, crash_summary(p.stdout))
     return "ok", G.judge(struct, cfg, recs, notes)
 
 
@@ -100,6 +116,8 @@ def run_case(exe, wd, struct, cfg, tq_ms=4000, tag="c", timeout=90):
 # exclusion switches (each exclusion is counted in a label); set the variable to 1 to generate the excluded cases again
 ALLOW_SHORT_MULTI = os.environ.get("C18_ALLOW_SHORT_MULTI_REMOTE", "0") == "1"   # documented unsupported case
 ALLOW_MIXED_OUT = os.environ.get("C18_ALLOW_MIXED_OUT_TYPES", "0") == "1"        # finding C18-F1 (corpus/C18/regress/F1_*.json)
+ALLOW_FORWARD_RW = os.environ.get("C18_ALLOW_FORWARD_AFTER_RW", "0") == "1"       # finding C18-F3 (corpus/C18/regress/F3_*.json)
+ALLOW_PACKED_MULTI = os.environ.get("C18_ALLOW_PACKED_PLUS_SHAPE", "0") == "1"   # finding C18-F2 (corpus/C18/regress/F2_*.json)
 
 FTYPES = [None, "DEFAULT", "FULL"]
 ALLT = [None, "DEFAULT", "FULL", "UPPER", "LOWER", "UPPER", "LOWER"]
@@ -133,20 +151,23 @@ def draw_struct(d):
     if not ALLOW_MIXED_OUT and len(set(raw_ot)) > 1:
         lab("excl_F1_mixed_output_types_made_uniform")
         raw_ot = [raw_ot[0]] * nc
+    # one message received with several datatypes (PACKED reception) needs consumers that share the output type_remote
+    common_rk = d(st.sampled_from(["free", "free", "free", "full", "tri"]))
+    common_otr = d(st.sampled_from(["DEFAULT", "FULL"] if common_rk == "full" else ["UPPER", "LOWER"]))
     for c in range(nc):
         ot = raw_ot[c]
         if G.SHAPE[ot] == "F":
             it = d(st.sampled_from(FTYPES))
         else:
             it = d(st.sampled_from([None, ot, ot] + ([SWAP[ot], SWAP[ot]] if square else [])))
-        rk = d(st.sampled_from(["none", "full", "tri", "tri"]))
+        rk = common_rk if common_rk != "free" else d(st.sampled_from(["none", "full", "tri", "tri"]))
         if rk == "none":
             otr = itr = None
         elif rk == "full":
-            otr, itr = d(st.sampled_from(FTYPES)), d(st.sampled_from(FTYPES))
+            otr, itr = common_otr if common_rk == "full" else d(st.sampled_from(FTYPES)), d(st.sampled_from(FTYPES))
         else:
-            otr = d(st.sampled_from(["UPPER", "LOWER"]))
-            itr = SWAP[otr] if (square and d(st.integers(0, 3)) == 0) else otr
+            otr = common_otr if common_rk == "tri" else d(st.sampled_from(["UPPER", "LOWER"]))
+            itr = SWAP[otr] if (square and d(st.integers(0, 2)) == 0) else otr
         struct["cons"].append(dict(rw=d(st.integers(0, 1)), ot=ot, it=it, otr=otr, itr=itr))
     # an RW consumer must own its copy (see legal_placements); give up the write access when no placement on 4 ranks allows it
     while not legal_placements(struct, 4, 0):
@@ -161,7 +182,8 @@ _LEGAL = {}
 
 def legal_placements(struct, P, pr):
     """all assignments of the consumers of one tile to ranks (producer on rank pr) in which every RW consumer owns its copy:
-    it does not receive the producer's copy itself and no other consumer on its rank has the same share class."""
+    it does not receive the producer's copy itself and no other consumer on its rank has the same share class
+    (and, unless C18_ALLOW_PACKED_PLUS_SHAPE=1, no process is in the situation of finding C18-F2)."""
     key = (json.dumps(struct, sort_keys=True), P, pr)
     if key not in _LEGAL:
         cons = struct["cons"]
@@ -177,7 +199,7 @@ def legal_placements(struct, P, pr):
                 for j, y in enumerate(cons):
                     if j != c and pl[j] == pl[c] and G.share_class(struct, y, loc) == G.share_class(struct, x, loc):
                         ok = False
-            if ok:
+            if ok and (ALLOW_PACKED_MULTI or not G.packed_plus_other_shape(struct, pl, pr)):
                 out.append(list(pl))
         _LEGAL[key] = out
     return _LEGAL[key]
@@ -196,12 +218,13 @@ def draw_cfg(d, struct, square):
         pl = [prank[k] if d(st.integers(0, 9)) < 3 else d(st.integers(0, P - 1)) for _ in range(nc)]
         legal = legal_placements(struct, P, prank[k])
         if pl not in legal:
+            lab("excl_F2_packed_plus_other_remote_shape_redrawn" if (not ALLOW_PACKED_MULTI and G.packed_plus_other_shape(struct, pl, prank[k]))
+                else "placement_redrawn_rw_owns_copy")
             pl = legal[d(st.integers(0, len(legal) - 1))]
-            lab("placement_redrawn_rw_owns_copy")
         for c in range(nc):
             crank[c][k] = pl[c]
     cfg = dict(m=m, n=n, ld=m + d(st.integers(0, 2)), diag=d(st.sampled_from([1, 1, 1, 0])), nt=nt, P=P, threads=d(st.integers(1, 4)),
-               short=d(st.sampled_from([None, 0, 16, 64, 256, 4096])), delay_us=d(st.sampled_from([0, 100, 1000])),
+               short=d(st.sampled_from([None, 0, 16, 64, 256, 4096])), bcast=d(st.sampled_from([None, 0, 1, 2])), delay_us=d(st.sampled_from([0, 100, 1000])),
                sched=d(st.sampled_from(SCHEDS)), prank=prank, crank=crank)
     return cfg
 
@@ -221,6 +244,8 @@ def classify(struct, cfg):
             kinds.add(("local_" if loc else "remote_") + ("same_copy" if not G.is_fresh(struct, x, loc) else s + "to" + t))
             cl.add(G.edge_class(struct, x, loc) + (loc,))
         differ = differ or len(cl) >= 2
+    if any(len(v) >= 2 for k in range(cfg["nt"]) for g in G.remote_groups(struct, G.placement(cfg, k), cfg["prank"][k] % cfg["P"]).values() for v in g.values()):
+        lab("packed_reception")
     for kd in kinds:
         lab("edge_" + kd)
     lab("edges_local", nloc)
@@ -232,6 +257,7 @@ def classify(struct, cfg):
     lab("threads_%d" % cfg["threads"])
     lab("consumers_%d" % len(struct["cons"]))
     lab("short_%s" % cfg["short"])
+    lab("bcast_%s" % cfg.get("bcast"))
     if cfg["ld"] > cfg["m"]:
         lab("ld_gt_m")
     if cfg["diag"] == 0:
@@ -241,12 +267,16 @@ def classify(struct, cfg):
 
 def execute(struct, cfg, wd):
     """run one case with the watchdog convention: up to 3 tries on hang/crash; -> (status, msg)."""
-    multi = any(len(v) >= 2 for k in range(cfg["nt"]) for v in G.remote_shapes(struct, cfg, k).values())
+    multi = any(G.several_remote_shapes(struct, G.placement(cfg, k), cfg["prank"][k] % cfg["P"]) for k in range(cfg["nt"]))
     if multi and cfg["short"] != 0 and not ALLOW_SHORT_MULTI:
         cfg["short"] = 0
         lab("excl_short_limit_forced_0_several_remote_shapes")
     elif multi:
         lab("several_remote_shapes_to_one_rank")
+    fwd = any(G.forwarded_after_rw(struct, G.placement(cfg, k), cfg["prank"][k] % cfg["P"]) for k in range(cfg["nt"]))
+    if fwd and cfg.get("bcast") != 0 and not ALLOW_FORWARD_RW:
+        cfg["bcast"] = 0
+        lab("excl_F3_star_broadcast_forced_rw_consumer_on_forwarding_rank")
     if os.environ.get("C18_DRY") == "1":      # generator statistics only
         return "ok", ""
     exe = build_structure(struct)
@@ -310,13 +340,14 @@ def main():
             case = json.load(open(a.replay))
             exe = build_structure(case["struct"])
             bad = None
-            tq = case.get("tq_ms", 6000)
             for i in range(case.get("repeat", 3)):
-                status, msg = run_case(exe, wd, case["struct"], case["cfg"], tq_ms=tq)
-                if status == "timeout":
-                    continue
-                if status == "hang" and i < 2:       # a watchdog alarm must repeat with a longer quiescence time
+                tq = case.get("tq_ms", 6000)
+                for attempt in range(3):             # a watchdog alarm or a crash must repeat (longer quiescence time) to count
+                    status, msg = run_case(exe, wd, case["struct"], case["cfg"], tq_ms=tq)
+                    if status not in ("hang", "crash"):
+                        break
                     tq *= 2
+                if status == "timeout":
                     continue
                 if status != "ok" or msg:
                     bad = msg or status
